@@ -59,6 +59,11 @@ def corpus(scratch, rnd):
     slots = {i: bytes(mkdisc.surface_dfs(800, 30 + i, title=b"SLOT%d" % i, entries=files(800))) for i in (0, 1, 2)}
     p = mkdisc.write(os.path.join(scratch, "m.mmb"), mkdisc.container_mmb(slots))
     items.append(("mmb", p, [["cat", "0"], ["cat", "2"], ["cat", "6"], ["type", "--binary", ":4.$.A"], ["show-titles", "0", "2", "4"]]))
+    # drive numbers with two digits (7 slots: drives 0, 2, .. 12 under the physical policy), in commands that take several drives
+    slots = {i: bytes(mkdisc.surface_dfs(800, 50 + i, title=b"SEVEN%d" % i, entries=files(800 - 10 * i))) for i in range(7)}
+    p = mkdisc.write(os.path.join(scratch, "m7.mmb"), mkdisc.container_mmb(slots))
+    items.append(("mmb-7", p, [["space", "2", "10"], ["space", "12", "0", "10"], ["free", "10"], ["cat", "12"], ["show-titles", "10", "12", "2"],
+                               ["type", "--binary", ":10.$.A"], ["sector-map", "12"], ["info", ":12.#.*"]]))
     # the largest container there is: all 511 slots (8192 + 511 * 204800 bytes), first and last slot formatted
     slots = {i: bytes(mkdisc.surface_dfs(800, 33, title=b"SLOT%d" % i, entries=files(800))) for i in (0, 510)}
     p = mkdisc.write(os.path.join(scratch, "full.mmb"), mkdisc.container_mmb(slots, nslots_physical=511))
